@@ -55,11 +55,12 @@ def model(c, runs):
     jobs.append(dict(name="sensitivity: no_exit_recheck (woken by an adjust, the writer does not look at eof_sent / closed again)", module="Channel",
                      expect="NoDataAfterCtl", cfg=cfg_text(constants=dict(parked, Mut="no_exit_recheck"), invariants=MINVS)))
     # the pinned tree: message built under the lock, handed over after releasing it
-    for name, a, b in PAIRS:
+    pairs = PAIRS[:1] if c.quick else PAIRS     # (each TLC start costs seconds on a busy machine)
+    for name, a, b in pairs:
         jobs.append(dict(name="pinned hand-over outside the lock: _send vs %s" % name, module="Channel", expect="NoDataAfterCtl",
                          cfg=cfg_text(constants=dict(BASE, OpsA=a, OpsB=b, HoldBack=False, SendN=2), invariants=["NoDataAfterCtl"])))
     # mutated models (quick tier: one JVM start costs seconds on a busy machine, so only the thorough tier runs these)
-    for mut, inv in ((("no_flush", "QueueDrains|CloseAnswered|CloseAnsweredExact"),) if c.quick else
+    for mut, inv in (() if c.quick else
                      (("no_flush", "QueueDrains|CloseAnswered|CloseAnsweredExact"), ("eof_twice", "EofOnce"),
                       ("no_close_answer", "CloseAnswered|CloseAnsweredExact"), ("no_unlink", "ReleasedInv"))):
         jobs.append(dict(name="sensitivity: " + mut, module="Channel", expect=inv,
@@ -71,7 +72,7 @@ def model(c, runs):
     res = dc.mc_batch(c, jobs, parallel=10)
     gen = dict(GEN, HoldBack=dc.holdback())
     # RP 1: drive the real code along each counterexample
-    for name, a, b in PAIRS:
+    for name, a, b in pairs:
         r = res["pinned hand-over outside the lock: _send vs %s" % name]
         prog, plan = dc.plan_from_counterexample(r, dict(BASE, SendN=2), U)   # (pinned structure: hand-over outside the lock)
         ex = dc.replay_plan(prog, plan)
@@ -195,7 +196,7 @@ def run(c):
     laps["validate_s"] = round(time.time() - t0 - laps["model+replay_s"] - laps["explore_s"], 1)
     c.extra["laps"] = laps
     c.rule = ("M: all interleavings of 2-3 user threads per side x 1-2 calls from {send, sendall, send_stderr, recv, close, shutdown_write, shutdown(2)} "
-              "plus the transport threads (peer EOF/CLOSE arrival), transport loss in the thorough tier. RP: the three TLC counterexamples and %d "
+              "plus the transport threads (peer EOF/CLOSE arrival), transport loss in the thorough tier. RP: the TLC counterexamples of the pinned hand-over and %d "
               "TLC-simulated behaviours (%d differing) driven on real channels. TV: %d of %d programs (writer threads vs close/shutdown/peer close, "
               "windows 32768..2^32-1, packets 4096/32768, blocking/timed/non-blocking) under DFS with <= %d preemption(s) (capped) + seeded random "
               "schedules; distinct = (program, schedule)" % (nb, differ, explored, len(progs), 1 if c.quick else 2))
